@@ -5,7 +5,8 @@ then applies it to /repo, runs ./check <prop>, reverts /repo, and stores the see
 import json, os, shutil, subprocess, sys
 prop, outdir, k = sys.argv[1:4]
 tests = sys.argv[4:]
-wt = f"/tmp/wt/{prop}"
+wt = os.environ.get("TRY_SEED_WT", f"/tmp/wt/{prop}")          # scratch worktree of /repo
+store_k = os.environ.get("TRY_SEED_K", k)                     # index under which the seed is stored (seeded/<prop>-<store_k>)
 R = os.path.dirname(os.path.dirname(os.path.abspath(__file__)))
 patch = f"{outdir}/patch_{k}.diff"
 demo = f"{outdir}/demo_{k}.py"
@@ -43,7 +44,7 @@ lines = [l for l in c.stdout.splitlines() if l.startswith(("VIOLATION", "ENGINE-
 print(f"check exit={c.returncode}")
 for l in lines[:8]:
     print("   ", l[:300])
-d = os.path.join(R, "seeded", f"{prop}-{k}")
+d = os.path.join(R, "seeded", f"{prop}-{store_k}")
 os.makedirs(d, exist_ok=True)
 shutil.copy(patch, os.path.join(d, "patch.diff"))
 shutil.copy(demo, os.path.join(d, os.path.basename("demo.py")))
